@@ -10,6 +10,7 @@ import astropy.units as u
 from astropy.time import Time
 import pulsarbat as pb
 from harness.common import qlit, zlit, optlit, listlit
+from harness.common import asked_before
 from harness import exact as X
 
 VFILES = ['Lib/PySlice.v', 'Gen/GenConsts.v', 'Model/FastLen.v', 'Gen/GenUtils.v', 'Model/Ledger.v', 'Model/Band.v', 'Model/Disp.v',
@@ -149,6 +150,8 @@ def run(ctx):
         ctx.seen(inp, nontrivial=(start_w > 0 or stop_w < N))
         ctx.count('coherent')
         ctx.count('ref:' + refsel)
+        if asked_before(ctx, rng, lambda: pb.coherent_dedispersion(z, dm, ref_freq=ref), lambda: dm.chirp_from_signal(z, ref_freq=ref)):
+            inp['asked_before'] = True
         y = pb.coherent_dedispersion(z, dm, ref_freq=ref)
         # --- chirp per channel against the exact phase (M) and the model's phase (T)
         chirp = np.asarray(dm.chirp_from_signal(z, ref_freq=ref))
